@@ -189,3 +189,44 @@ Proof.
     + exists b, a. repeat split; auto. inversion Hs as [|? ? _ Hf]; subst.
       inversion Hf; auto.
 Qed.
+
+(* ------------------------------------------------------------------ without NoDup *)
+Lemma sort_grids_perm k l :
+  Permutation (sort_grids k l) (filter (fun g => fst g <=? k) l).
+Proof.
+  induction k as [|k IHp].
+  - unfold sort_grids; cbn [dims_down flat_map]. rewrite app_nil_r.
+    eapply perm_trans; [apply isort_perm|]. unfold of_dim.
+    erewrite filter_ext; [reflexivity|]. intros a; cbn. destruct (fst a); reflexivity.
+  - rewrite sort_grids_S.
+    eapply perm_trans; [apply Permutation_app; [apply isort_perm | exact IHp]|].
+    unfold of_dim. apply filter_split; intros x _.
+    + destruct (fst x =? S k) eqn:E1, (fst x <=? k) eqn:E2, (fst x <=? S k) eqn:E3;
+        try reflexivity;
+        repeat match goal with
+               | H : (_ =? _) = true |- _ => apply Nat.eqb_eq in H
+               | H : (_ =? _) = false |- _ => apply Nat.eqb_neq in H
+               | H : (_ <=? _) = true |- _ => apply Nat.leb_le in H
+               | H : (_ <=? _) = false |- _ => apply Nat.leb_gt in H
+               end; lia.
+    + destruct (fst x =? S k) eqn:E1, (fst x <=? k) eqn:E2; try reflexivity.
+      apply Nat.eqb_eq in E1. apply Nat.leb_le in E2. lia.
+Qed.
+
+(* sort_subdomain_tuple on two present subdomains, possibly the same one *)
+Lemma sort_tuple_gen s a b :
+  In a s -> In b s ->
+  exists x y, sort_tuple s a b = Ok (x, y) /\ (a <> b -> glt x y) /\
+              ((x, y) = (a, b) \/ (x, y) = (b, a)).
+Proof.
+  intros Ha Hb. destruct (gid_dec a b) as [->|Hab].
+  - exists b, b. split; [|split; [congruence | auto]].
+    unfold sort_tuple, argsort. destruct s as [|s0 sr]; [destruct Hb|].
+    pose proof (sort_grids_perm (dim_max (s0 :: sr)) [b; b]) as Hp.
+    assert (E : (fst b <=? dim_max (s0 :: sr)) = true) by (apply Nat.leb_le; apply dim_max_ge; auto).
+    cbn [filter] in Hp. rewrite E in Hp.
+    apply Permutation_sym in Hp. apply Permutation_length_2_inv in Hp.
+    destruct Hp as [-> | ->]; reflexivity.
+  - destruct (sort_tuple_ok s a b Ha Hb Hab) as (x & y & H1 & H2 & H3).
+    exists x, y. auto.
+Qed.
